@@ -1,7 +1,7 @@
 (* C09 — division family: quotient within one LSB, exact floor-division and modulo.
    Reference codes: SpecArith.truediv_floor / floordiv_code / mod_code (integer codes of
    the optimal formats).  Model: Div.div_raw / Div.div_repr. *)
-From Coq Require Import ZArith List Bool.
+From Coq Require Import ZArith List Bool Lia.
 From FxpVerif Require Import Spec SpecArith NP Store ProofsCore Arith ProofsArith Div ProofsDiv ProofsDivModel.
 Import ListNotations.
 Open Scope Z_scope.
@@ -70,6 +70,18 @@ Theorem C09_floordiv_mod_no_overflow : forall fx a fy b, div_small fx -> div_sma
   in_range (grow_floordiv fx fy) (floordiv_code fx a fy b) /\ in_range (grow_mod fx fy) (mod_code fx a fy b).
 Proof. intros. split; [apply floordiv_in_range | apply mod_in_range]; assumption. Qed.
 Print Assumptions C09_floordiv_mod_no_overflow.
+
+(* the two calculation methods agree on // and % also when an operand word exceeds 53 bits (where the float value of that operand
+   would be rounded): the value method is then DEFINED as the integer-code method (fix 2a01ad6), so the raw-model theorems above
+   speak about both *)
+Theorem C09_methods_agree_wide_operands : forall d fx cxs fy cys fz r o, d <> DTrue -> (53 < nw fx \/ 53 < nw fy) ->
+  div_repr d fx cxs fy cys fz r o = div_raw d fx cxs fy cys fz r o.
+Proof.
+  intros d fx cxs fy cys fz r o Hd Hw. unfold div_repr.
+  assert (E: (53 <? nw fx) || (53 <? nw fy) = true) by (destruct Hw; [replace (53 <? nw fx) with true by lia | replace (53 <? nw fy) with true by lia; rewrite orb_true_r]; reflexivity).
+  destruct d; [congruence| |]; rewrite E; reflexivity.
+Qed.
+Print Assumptions C09_methods_agree_wide_operands.
 
 Example C09_nonvacuous :
   let fx := {| sg := true; nw := 5; nf := 2 |} in let fy := {| sg := true; nw := 4; nf := 1 |} in
